@@ -156,10 +156,15 @@ struct Orc {
     early: u64,
     leaks_total: u64,
     final_polls: u64,
+    hangs: u32,
+    dp_waits_expired: u32,
 }
 
 impl Orc {
     fn problem(&mut self, ty: &str, sig: Value, desc: String) {
+        if ty == "hang" {
+            self.hangs += 1;
+        }
         let raw = self.raw.clone();
         self.report.problem(ty, sig, desc, &raw, self.stepno);
     }
@@ -250,7 +255,9 @@ impl Orc {
             let t0 = std::time::Instant::now();
             let mut reply = None;
             let rx = &self.rep_rx[t];
-            wait_until(watchdog(), || {
+            // (a tree on which the expected disposition never shows up must not cost a watchdog per case)
+            let limit = if self.dp_waits_expired < 3 { watchdog() } else { Duration::from_millis(50) };
+            let seen = wait_until(limit, || {
                 if let Ok(r) = rx.try_recv() {
                     reply = Some(r);
                     return true;
@@ -258,6 +265,9 @@ impl Orc {
                 t0.elapsed() >= Duration::from_millis(2)
                     && (handler_installed(libc::SIGUSR1), handler_installed(libc::SIGUSR2)) == exp.dp
             });
+            if !seen {
+                self.dp_waits_expired += 1;
+            }
             if let Some(r) = reply {
                 self.early += 1;
                 self.early_return(cs, l);
@@ -473,6 +483,14 @@ impl Orc {
                     format!("listener {l} of signal {s} was woken although only other signals were raised"),
                 );
             }
+            let others = (1..=cs.n).any(|m| cs.sig[m] == cs.sig[l] && (cs.st[m] == "pend" || cs.st[m] == "busy"));
+            if s != "k" && !others && handler_installed(cs.sig[l]) {
+                self.problem(
+                    "contract",
+                    json!({"site": "unregister", "kind": "handler_left_installed_without_listener", "sig": s}),
+                    format!("no listener is registered for {s} any more but its handler is still installed: the signal is swallowed from now on"),
+                );
+            }
             if cs.st[l] == "pend" && s != "k" && !handler_installed(cs.sig[l]) {
                 self.problem(
                     "contract",
@@ -627,12 +645,18 @@ impl Orc {
         }
         self.stepno = case.steps.len();
         let r = self.cleanup(&mut cs);
-        if r.is_ok() && (handler_installed(libc::SIGUSR1) || handler_installed(libc::SIGUSR2)) {
-            self.problem(
-                "mismatch",
-                json!({"site": "replay_signal", "act": "cleanup", "fields": ["dp"]}),
-                "a handler is still installed after every listener was dropped".into(),
-            );
+        if r.is_ok() {
+            for (name, sig) in [("a", libc::SIGUSR1), ("b", libc::SIGUSR2)] {
+                if handler_installed(sig) {
+                    self.problem(
+                        "contract",
+                        json!({"site": "unregister", "kind": "handler_left_installed_without_listener", "sig": name}),
+                        format!("every listener was dropped but the handler for {name} is still installed: the signal is swallowed from now on"),
+                    );
+                    // restore the baseline so that the following cases are not contaminated
+                    unsafe { libc::signal(sig, libc::SIG_DFL) };
+                }
+            }
         }
         r
     }
@@ -672,6 +696,8 @@ fn main() {
         early: 0,
         leaks_total: 0,
         final_polls: 0,
+        hangs: 0,
+        dp_waits_expired: 0,
     };
     // warm-up: the table gets its buffer, the free list is canonical
     orc.mirror.insert();
@@ -697,6 +723,9 @@ fn main() {
         if let Err(e) = orc.run_case(&case) {
             orc.problem("hang", json!({"site": "replay_signal", "kind": "process_wedged"}), e.clone());
             fatal = Some(e);
+        }
+        if orc.hangs >= 3 && fatal.is_none() {
+            fatal = Some("three watchdog expiries: not waiting for more".into());
         }
         done = idx + 1;
         if done % 500 == 0 {
